@@ -423,7 +423,35 @@ func main() {
 						run.Violate(core.Violation{Sig: "finding-" + kind + "|" + c.Class + "|" + where, Clause: "the payload is reported equally wherever it occurs as a condition or call in that or any nested statement",
 							Case: cse, Observe: base, Expect: want})
 					}
+					single := pairsOf(security.NewScanner().Scan(tree))
 					ast.ReleaseAST(tree)
+					// Scripts (Injection.tla, ScriptLaw): the findings of a script are the findings of its statements, one
+					// after the other, and the counts are the counts of that list - wherever in the script the payload is
+					if ci%4 == 0 && li == 0 && !strings.Contains(text, ";") {
+						const plain = "SELECT pa FROM pt WHERE pb = 2"
+						for si, sc := range []struct {
+							text string
+							n    int
+						}{{text + ";\n" + plain, 1}, {plain + ";\n" + text + ";\n" + plain, 1}, {text + ";\n" + text + ";\n" + plain, 2}} {
+							stree, err := gosqlx.Parse(sc.text)
+							run.Eval(1)
+							if err != nil {
+								continue
+							}
+							scse := map[string]any{"kind": "injection-script", "payload": c.Payload, "exprs": c.Exprs, "place": c.Place, "nests": c.Nests, "sql": sc.text}
+							got := laws("Scan|script", scse, func(s *security.Scanner) *security.ScanResult { return s.Scan(stree) })
+							var want []string
+							for k := 0; k < sc.n; k++ {
+								want = append(want, single...)
+							}
+							sort.Strings(want)
+							if strings.Join(got, ",") != strings.Join(want, ",") {
+								run.Violate(core.Violation{Sig: fmt.Sprintf("script-findings-differ|shape-%d", si), Clause: "the payload is reported equally wherever it occurs ... in that or any nested statement; counts equal the findings listed",
+									Case: scse, Observe: got, Expect: want})
+							}
+							ast.ReleaseAST(stree)
+						}
+					}
 					if ci%997 == 5 && li == 0 {
 						run.Sample(map[string]any{"payload": c.Payload, "exprs": c.Exprs, "place": c.Place, "nests": c.Nests, "sql": text, "findings": base, "reference": want})
 					}
